@@ -181,11 +181,15 @@ Definition base_ok (al : alg) (e : op) (a : atree) : Prop :=
   | AChol => chol_ok n (dense e)
   | ALU => lu_ok n (dense e)
   | AOther => unitary n (den e) /\ (asa a = true -> hermitian e)
-  | _ => True
+  | ACG => inv2 n (iter_o ICG e) (den e)          (* the solver is exact (properties C12 / C13) *)
+  | AGMRES => inv2 n (iter_o IGMRES e) (den e)
+  | AAuto => True
   end.
+Lemma good_Iter t (e : op) : is_sq e = true -> inv2 (fst (shape e)) (iter_o t e) (den e) -> good (IIter t e) e.
+Proof. intros Sq I. split; [reflexivity|]. split; [cbn [to_op shape nr nc]; destruct (shape e); reflexivity|]. exact I. Qed.
 Lemma base_good (al : alg) (e : op) (a : atree) r : tinv_ok -> wf e = true -> is_sq e = true -> base_ok al e a ->
-  base al e a = IOk r -> direct r = true -> good r e.
-Proof. intros TO W Sq OK H Dr. unfold base in H. unfold base_ok in OK.
+  base al e a = IOk r -> good r e.
+Proof. intros TO W Sq OK H. unfold base in H. unfold base_ok in OK.
   pose proof (sq_shape e Sq) as Sh. set (n := fst (shape e)) in *.
   assert (DD : feq n n (dense e) (den e)). { pose proof (dense_den e W) as D. rewrite Sh in D. exact D. }
   destruct (base_alg al e a).
@@ -214,8 +218,8 @@ Proof. intros TO W Sq OK H Dr. unfold base in H. unfold base_ok in OK.
     change (to_op (IProd [ITri n (ctr n L) false; ITri n L true])) with (Prod [gen n (tinv_o n (ctr n L) false); gen n (tinv_o n L true)]).
     eapply inv2_ext; [apply feq_sym; apply den_prod2 | eapply feq_trans; [exact E|exact DD] |].
     apply inv2_mul; auto.
-  - destruct (apsd a); [|discriminate]. inversion H; subst r. discriminate.
-  - inversion H; subst r. discriminate.
+  - destruct (apsd a); [|discriminate]. inversion H; subst r. apply good_Iter; auto.
+  - inversion H; subst r. apply good_Iter; auto.
   - (* any other algorithm object: only the Unitary rule matches *)
     destruct (auni a); [|discriminate]. inversion H; subst r; clear H. destruct OK as [UN HS].
     destruct (adjoint_sound (asa a) e W HS) as (W' & S' & D').
